@@ -24,7 +24,7 @@ META = {
               'effect may reach memory aliasing a parameter or stored field (set_snr excepted); no global/class-attribute writes; lazily set trainer attributes follow the '
               '`is None` + assert protocol; random numbers only when initialization is None; a cACGMM fit continued from a model starts with the E-step and has all M-step inputs assigned. '
               'Decides necessary conditions, not bit-exact reproducibility. '
-              'Also: the dimension a stateful trainer remembers / compares is the last axis of the observation. Also: an array returned by an lru_cache / cache function is storage shared between calls: no in-place effect reaches it. A public memoised function does not return writable arrays.',
+              'Also: the dimension a stateful trainer remembers / compares is the last axis of the observation. Also: an array returned by an lru_cache / cache function is storage shared between calls: no in-place effect reaches it. A public memoised function does not return writable arrays. Effects on lists / dicts are judged when the receiver is a parameter or a value taken out of **kwargs.',
         note='Trusted: numpy view/copy table; results of unmodelled library calls may alias any argument (reported as unresolved, never as a violation). Cython variants not analysed.',
         design='DESIGN.md section 3 (C20)'),
     'C02': dict(
@@ -64,7 +64,7 @@ META = {
               'index first), the mask normalisation (time axis parameter, positive floor, only under normalize), the frame-count normaliser, the defensive copy (no in-place effect reaches '
               'mask / observation), existence of every numpy attribute used (boolean-mask conversion), the roll guard and the form of condition_covariance. '
               'PSD-ness and numeric layout equivalence are NOT decided. '
-              'Every division of the mask by a mask-derived quantity is the floored time-axis sum. Also: every contraction operand goes back to the caller\'s array through exactly one reordering to (..., sensor_dim, time_dim) resp. (..., source_dim, time_dim).',
+              'Every division of the mask by a mask-derived quantity is the floored time-axis sum. Also: every contraction operand goes back to the caller\'s array through exactly one reordering to (..., sensor_dim, time_dim) resp. (..., source_dim, time_dim). (a recognised spelling, or - for any chain of pure reorderings with closed axis arithmetic - on every point of ranks 2..4 x all axis assignments, folded by pbv/inteval.py).',
         note='Trusted: the defining formula in the property statement, numpy semantics table; numpy is imported only to resolve attribute names.',
         design='DESIGN.md section 3 (C10)'),
     'C11': dict(
@@ -101,7 +101,7 @@ META = {
     'C15': dict(
         technique='static analysis: exhaustive arg-max loop recogniser (R-SEL c) + orientation typing of score matrices (einsum structure, transposes, argument order)',
         level='Optimality clause: complete strict arg-max enumeration with objective sum_k score[k, perm[k]]. Inversion clause, structural part: all score metrics are rows = reference / '
-              'columns = estimate, assignment maps row -> column, apply_mapping gathers the estimate, the oracle wires (mask, reference_mask) and its configured algorithm; the cos score is free of the scale of its arguments (exact normalisers only). The euclidean score is the negative norm of the row difference, laid out [independent..., reference, estimate] (axis labels followed through every pure reordering; the expansion |a|^2+|b|^2-2<a,b> is a deviation). multiply returns the signed contraction itself. '
+              'columns = estimate, assignment maps row -> column, apply_mapping gathers the estimate, the oracle wires (mask, reference_mask) and its configured algorithm; the cos score is free of the scale of its arguments (exact normalisers only). The euclidean score is the negative norm of the row difference, laid out [independent..., reference, estimate] (axis labels followed through every pure reordering; the expansion |a|^2+|b|^2-2<a,b> is a deviation). multiply returns the signed contraction itself. A block-wise sum of the distance covers every frame exactly once (bounds folded around the multiples of the block size). '
               'Exact inversion for every permutation field is NOT decided.',
         note='Shares rule instances with C14.',
         design='DESIGN.md section 3 (C15)'),
@@ -112,7 +112,7 @@ META = {
               'on a copy, centroid from the current features); the greedy aligner composes adjacent-bin assignments with the composed predecessor in increasing f from an identity column. '
               'Of plan coverage only a necessary condition is decided: for every outcome of the branch conditions of alignment_plan some segment is stretched to each band edge (0 and F). '
               'Recovery of a consistent order, identity on consistent masks and full plan coverage are NOT decided (no sound static argument in reach). '
-              'Also decided: the bins re-assigned in a DHTV segment are the bins its centroid was averaged over, cosine features are normalised over time, every planned segment spans segment_width bins. Also: under \'cos\' neither the bin\'s features nor the centroid reach the per-bin score without the time normaliser. Also: the centroid is not written into a buffer of the dtype of the mask (R-DTYPE).',
+              'Also decided: the bins re-assigned in a DHTV segment are the bins its centroid was averaged over, cosine features are normalised over time, every planned segment spans segment_width bins. Also: under \'cos\' neither the bin\'s features nor the centroid reach the per-bin score without the time normaliser. Also: the centroid is not written into a buffer of the dtype of the mask (R-DTYPE). Also: the loop over the passes of a segment runs as often as the plan says.',
         note='The behavioural clauses of C16 quantify over all masks / all plan configurations; see DESIGN.md section 6.',
         design='DESIGN.md section 3 (C16)'),
     'C05': dict(
@@ -135,14 +135,14 @@ META = {
         level='Each parameter stored in a fitted model is the value of its documented sanitiser with the documented bounds as operands (vMF clip and floored-norm mean, Watson saturating '
               'spline, cACG max-normalisation + floor + finiteness assert + Hermitian scatter, Bingham bounded solver + floor + Hermitian scatter, uniform / L1-normalised weights, floored '
               'Gaussian mass, Cholesky at construction). NaN-freeness on arbitrary degenerate data is NOT decided. '
-              'Also: a relative eigenvalue floor is relative to the largest eigenvalue. Also: no statement-level floor / clamp is computed and dropped (R-DROP). Also: a python-float floor below float32 tiny is not a positive floor (it is 0.0 against single-precision data).',
+              'Also: a relative eigenvalue floor is relative to the largest eigenvalue. Also: no statement-level floor / clamp is computed and dropped (R-DROP). Also: a python-float floor below float32 tiny is not a positive floor (it is 0.0 against single-precision data). Also: np.linalg.eig in from_covariance only as the fallback of an exception handler.',
         note='Trusted: sanitiser-per-field table from the documentation.',
         design='DESIGN.md section 3 (C09)'),
     'C18': dict(
         technique='static analysis: axis-parametricity rule, form rules on term graphs, integer typing of shape arithmetic, may-alias in-place analysis',
         level='Every axis-consuming call in the 9 mask functions takes its axis from a parameter (literals only on the restored 2-D working array); binary / ratio / amplitude / phase-sensitive / '
               'complex masks have their defining form with the sum over source_axis; eps defaults are positive also in single precision; flatten dimensions are integers; quantile direction per sign; no caller mutation. '
-              'Threshold semantics on values and ties are NOT decided. Also: what the quantile mask ranks and compares are magnitudes (no path from the signal avoids abs). Also: axes are moved back to the positions named by the caller only on an array of the rank they were given for (not on a stack of results). Also: the working shape is (prod(shape[:-n]), prod(shape[-n:])), the destination axes are {-1..-n}, the row loop runs over the independent slices, and the returned mask has a data path to the VALUES of the signal.',
+              'Threshold semantics on values and ties are NOT decided. Also: what the quantile mask ranks and compares are magnitudes (no path from the signal avoids abs). Also: axes are moved back to the positions named by the caller only on an array of the rank they were given for (not on a stack of results). Also: the working shape is (prod(shape[:-n]), prod(shape[-n:])), the destination axes are {-1..-n}, the row loop runs over the independent slices, and the returned mask has a data path to the VALUES of the signal. The Lorenz mask compares the power with the threshold power (no selection by sort rank).',
         note='Trusted: mask definitions in the statement; sibling lorenz_mask as reference idiom.',
         design='DESIGN.md section 3 (C18)'),
     'C19': dict(
